@@ -18,6 +18,7 @@
 #include "dbgroup/random/zipf.hpp"
 
 // C++ standard libraries
+#include <algorithm>
 #include <cmath>
 #include <cstddef>
 #include <cstdint>
@@ -138,9 +139,11 @@ ApproxZipfDistribution<IntType>::UpdateCDF()
     }
     while (i < n_ + 1) {  // compute approximate values
       const auto low = 1.0 / pow(i, alpha_);
-      i += kSkipSize;
+      // the last interval must not reach beyond the last bin
+      const auto step = std::min<IntType>(static_cast<IntType>(kSkipSize), n_ + 1 - i);
+      i += step;
       const auto high = 1.0 / pow(i, alpha_);
-      base_prob += (low + high) * kSkipSize / 2;
+      base_prob += (low + high) * static_cast<double>(step) / 2;
     }
     base_prob = 1.0 / base_prob;
 
